@@ -199,6 +199,14 @@ def rule_provision(rep, tname, m):
             rep.ob(R, key, False, "needed_input_size is not recomputed here although ratio / chunk size / position changed", loc(fn))
             continue
         v = alg.conv(ni)
+        # saturating cast: `(x).ceil() as usize + c` clamps a negative x (x contains the negative carried position) to 0 *before* the
+        # reach constant is added; the request is then larger than the position needs and last_index drifts below the kept history
+        outside = sp.simplify(v - sum(a for a in sp.Add.make_args(sp.expand(v)) if a.has(trunc_f) or a.has(ceil_f)))
+        sat_terms = [a for a in sp.Add.make_args(sp.expand(v)) if (a.has(trunc_f) or a.has(ceil_f)) and any(str(s_) in ("last_index",) or str(s_).startswith("havoc") for s_ in a.free_symbols)]
+        if sat_terms and outside != 0:
+            rep.ob(R, key + "/cast-covers-sum", False,
+                   "`%s`: the float→usize cast saturates at 0 when last_index + advance is negative, and the constant %s is added afterwards; add the constant before rounding" % (show(ni)[:120], outside),
+                   loc(fn))
         margin = provision_margin(alg, v, alg.conv(li), alg.conv(rr), alg.conv(tt), alg.conv(nn), tb)
         free = margin.free_symbols
         bad = sorted(str(s) for s in free if str(s) in ("resample_ratio", "target_ratio", "chunk_size", "last_index") or str(s).startswith(("havoc", "new_ratio", "rel_ratio", "chunksize")))
